@@ -48,7 +48,8 @@ CHECKS.update({
         'text': 'Same state graph incl. run requests with an empty target list. Invariant: whenever nothing is pending '
         'or in flight the queue, to-do, doing and crew views are empty; step: after a dispatch no unit with idle '
         'upstream stays pending; liveness on the explored graph restricted to dispatch/reply events: no cycle '
-        '(Tarjan SCC) and every sink is quiescent.',
+        '(Tarjan SCC) and every sink is quiescent. The last clause (every waiter on "queue empty" / "nothing '
+        'executing" is eventually satisfied) is decided with the real waiter threads by the drain-and-run probe of C12.',
         'note': _SCHED_NOTE,
     },
     'C05': {
